@@ -420,6 +420,70 @@ impl C08 {
         }
     }
 
+    /// `\` and MOD with a fractional divisor (floored to 0: DIVISION BY ZERO; to -1: checked like any other), and FOR
+    /// on an Integer variable with a fractional STEP (every NEXT stores an Integer or reports OVERFLOW).
+    fn fraction_case(&self, ctx: &mut Ctx, rng: &mut Rng, for_loop: bool) {
+        let mut s = Session::new();
+        s.drain(8);
+        if for_loop {
+            let a0 = *rng.pick(&[-32000i64, 32000, -32768, 32760, 1, -5, 100]);
+            let b0 = *rng.pick(&[-33000i64, 33000, 32767, -32768, 4, 40000, -40000]);
+            // (a step between -1 and 1 would floor back onto the same value for ever: that is what BASIC does)
+            let st = *rng.pick(&["-300.5", "300.5", "1.5", "-1.5", "2.25#", "100.125", "-1000.5#", "7.75"]);
+            let var = *rng.pick(&["I%", "K9%"]);
+            let start = if a0 == -32768 { "-32767-1".to_string() } else { a0.to_string() };
+            let text = format!("FOR {}={} TO {} STEP {}:NEXT:PRINT {}", var, start, b0, st, var);
+            mon::journal(&text);
+            let mark = s.mark();
+            let stop = s.command(&text, 400);
+            let out = transcript(s.events_since(mark), Norm::STD);
+            ctx.eval(&text, true);
+            ctx.count("fractional_step_loops");
+            if stop == Stop::Budget {
+                return;
+            }
+            let ok = out.starts_with("?OVERFLOW")
+                || out.strip_suffix(" \nREADY.\n<STOPPED>").and_then(|t| t.trim().parse::<i64>().ok()).map(|v| (-32768..=32767).contains(&v)).unwrap_or(false);
+            let pr = s.rt.verif_probe();
+            let mistyped: Vec<String> = pr.vars.iter().filter(|(k, _)| k.as_str() == var).filter(|(_, v)| !matches!(v, Val::Integer(_))).map(|(k, v)| format!("{}={:?}", k, v)).collect();
+            if stop != Stop::Stopped || !ok || !mistyped.is_empty() {
+                ctx.violation(
+                    "pipeline-mismatch",
+                    "pipeline:fractional-step",
+                    &format!("{:?} printed {:?} (expected ?OVERFLOW or an Integer within range); held by the Integer variable: {:?}", text, out, mistyped),
+                    &text,
+                );
+            }
+            return;
+        }
+        let a = *rng.pick(&self.bset) as i64;
+        let (ft, fv) = *rng.pick(&[("0.5", 0.5f64), (".25", 0.25), ("0.999", 0.999), ("1E-10", 1e-10), ("0.5#", 0.5), ("-0.5", -0.5), ("-.001", -0.001), ("-0.999#", -0.999), ("1.5", 1.5), ("-1.5", -1.5)]);
+        let modop = rng.coin();
+        let text = format!("PRINT {} {} {}", if a == -32768 { "(-32767-1)".to_string() } else { format!("({})", a) }, if modop { "MOD" } else { "\\" }, ft);
+        mon::journal(&text);
+        let d = fv.floor() as i64;
+        let want: Result<i64, &str> = if d == 0 {
+            Err("DIVISION BY ZERO")
+        } else if modop {
+            Ok(a % d)
+        } else {
+            let q = a / d; // truncating, like the Integer division of the manual
+            if (-32768..=32767).contains(&q) { Ok(q) } else { Err("OVERFLOW") }
+        };
+        let mark = s.mark();
+        let stop = s.command(&text, 64);
+        let out = transcript(s.events_since(mark), Norm::STD);
+        ctx.eval(&text, true);
+        ctx.count("fractional_divisor_statements");
+        let expect = match want {
+            Ok(n) => format!("{}{} \nREADY.\n<STOPPED>", if n < 0 { "-" } else { " " }, n.abs()),
+            Err(e) => format!("?{}\nREADY.\n<STOPPED>", e),
+        };
+        if stop != Stop::Stopped || out != expect {
+            ctx.violation("pipeline-mismatch", "pipeline:fractional-divisor", &format!("{:?} printed {:?}, expected {:?}", text, out, expect), &text);
+        }
+    }
+
     /// A variable that held a floating value when a DEFINT made it an Integer variable: whatever it reads as
     /// afterwards, arithmetic stored back into it is Integer arithmetic -- OVERFLOW or a value within the range,
     /// held as an Integer.
@@ -614,7 +678,10 @@ impl C08 {
             ("MOD", BinOp::Mod),
             ("^", BinOp::Pow),
         ];
-        let which = rng.usize(18);
+        let which = rng.usize(20);
+        if which >= 18 {
+            return self.fraction_case(ctx, rng, which == 19);
+        }
         if which == 16 {
             return self.interrupted_error_case(ctx, rng);
         }
